@@ -1,4 +1,5 @@
 import PyxelModel.Model.C20
+import PyxelModel.Generated.C20
 /-!
 # C20 — property theorems (statement: properties.jsonl C20)
 
@@ -162,6 +163,18 @@ theorem placement (z : α) (m : Img α) (hwf : m.WF) (oy ox : Nat) (pos : Int ×
             exact hY.1
           exact paste_getPix z m hwf oy ox _ hpad i j hi hj
 
+
+-- non-vacuity: a 2 × 3 input on a 3 × 2 detector at offset (1, -1): cropped on the left, zero row below
+example : fitIntoArray (0 : Int) ⟨[[1, 2, 3], [4, 5, 6]], 3⟩ 3 2 (1, -1) none true
+    = .ok [[0, 0], [2, 3], [5, 6]] := by rfl
+example : (⟨[[1, 2, 3], [4, 5, 6]], 3⟩ : Img Int).WF := by unfold Img.WF; decide
+-- a larger input, centred: the middle is cut out
+example : fitIntoArray (0 : Int) ⟨[[1, 2, 3, 4], [5, 6, 7, 8], [9, 10, 11, 12]], 4⟩ 1 2 (7, 7)
+    (some .center) false = .ok [[6, 7]] := by rfl
+-- rejected: rows overlap, columns do not
+example : fitIntoArray (0 : Int) ⟨[[1, 2, 3], [4, 5, 6]], 3⟩ 3 2 (1, 2) none true
+    = .error .noOverlapX := by rfl
+example : fitIntoArray (0 : Int) ⟨[[1]], 1⟩ 2 2 (0, 0) none false = .error .tooSmall := by rfl
 
 /-- helper: what `fitIntoArray` returns, as a case split on the three guards -/
 theorem fit_cases (z : α) (m : Img α) (oy ox : Nat) (pos : Int × Int) (align : Option Align)
@@ -504,5 +517,267 @@ example :
     let r1 := memoLoadStale f [] fs1 "f" 1
     let r2 := memoLoadStale f r1.2 fs2 "f" 1
     r2.1 = some 11 ∧ (fs2 "f").map (fun file => f 1 file.content) = some 21 := by decide
+
+
+/-! ### text images: separator detection -/
+
+theorem splitOn_ne_nil (d : Char) (t : List Char) : splitOn d t ≠ [] := by
+  induction t with
+  | nil => simp [splitOn]
+  | cons c cs ih =>
+    unfold splitOn
+    split
+    · simp
+    · cases h : splitOn d cs <;> simp [consHead]
+
+theorem splitOn_cons_ne (d c : Char) (cs : List Char) (h : c ≠ d) :
+    splitOn d (c :: cs) = consHead c (splitOn d cs) := by
+  simp [splitOn, h]
+
+theorem splitOn_cons_eq (d : Char) (cs : List Char) : splitOn d (d :: cs) = [] :: splitOn d cs := by
+  simp [splitOn]
+
+theorem splitOn_no_sep (s : Char) (t : List Char) (h : ∀ c ∈ t, c ≠ s) : splitOn s t = [t] := by
+  induction t with
+  | nil => rfl
+  | cons c cs ih =>
+    have hc : c ≠ s := h c (by simp)
+    have := ih (fun x hx => h x (by simp [hx]))
+    rw [splitOn_cons_ne _ _ _ hc, this]
+    rfl
+
+theorem splitOn_append_sep (d : Char) (c rest : List Char) (h : ∀ x ∈ c, x ≠ d) :
+    splitOn d (c ++ d :: rest) = c :: splitOn d rest := by
+  induction c with
+  | nil => simp [splitOn_cons_eq]
+  | cons x xs ih =>
+    have hx : x ≠ d := h x (by simp)
+    have := ih (fun y hy => h y (by simp [hy]))
+    simp only [List.cons_append]
+    rw [splitOn_cons_ne _ _ _ hx, this]
+    rfl
+
+theorem splitOn_join (d : Char) (cells : List (List Char)) (hne : cells ≠ [])
+    (h : ∀ cell ∈ cells, ∀ x ∈ cell, x ≠ d) : splitOn d (joinWith d cells) = cells := by
+  induction cells with
+  | nil => exact absurd rfl hne
+  | cons c cs ih =>
+    cases cs with
+    | nil => simp only [joinWith]; exact splitOn_no_sep d c (h c (by simp))
+    | cons c' cs' =>
+      simp only [joinWith]
+      rw [splitOn_append_sep d c _ (h c (by simp))]
+      rw [ih (by simp) (fun cell hc => h cell (by simp [hc]))]
+
+theorem allSome_map_some {γ β} (l : List γ) (g : γ → Option β) (v : γ → β)
+    (h : ∀ x ∈ l, g x = some (v x)) : allSome (l.map g) = some (l.map v) := by
+  induction l with
+  | nil => rfl
+  | cons x xs ih =>
+    simp only [List.map_cons, h x (by simp), allSome]
+    rw [ih (fun y hy => h y (by simp [hy]))]
+    rfl
+
+theorem allSome_none_of_mem {β} (l : List (Option β)) (h : none ∈ l) : allSome l = none := by
+  induction l with
+  | nil => simp at h
+  | cons x xs ih =>
+    cases x with
+    | none => rfl
+    | some b =>
+      simp only [allSome]
+      rw [ih (by simpa using h)]
+      rfl
+
+/-- a character of the line survives in some field unless it is the separator -/
+theorem mem_splitOn_of_mem (s : Char) (t : List Char) (x : Char) (hx : x ∈ t) (hxs : x ≠ s) :
+    ∃ fld ∈ splitOn s t, x ∈ fld := by
+  induction t with
+  | nil => simp at hx
+  | cons c cs ih =>
+    by_cases hc : c = s
+    · subst hc
+      rw [splitOn_cons_eq]
+      have hx' : x ∈ cs := by
+        rcases List.mem_cons.mp hx with h | h
+        · exact absurd h hxs
+        · exact h
+      obtain ⟨fld, hf, hxf⟩ := ih hx'
+      exact ⟨fld, by simp [hf], hxf⟩
+    · rw [splitOn_cons_ne _ _ _ hc]
+      have hne := splitOn_ne_nil s cs
+      cases hsp : splitOn s cs with
+      | nil => exact absurd hsp hne
+      | cons t0 ts =>
+        simp only [consHead]
+        rcases List.mem_cons.mp hx with h | h
+        · exact ⟨c :: t0, by simp, by simp [h]⟩
+        · obtain ⟨fld, hf, hxf⟩ := ih h
+          rw [hsp] at hf
+          rcases List.mem_cons.mp hf with rfl | hf'
+          · exact ⟨c :: fld, by simp, by simp [hxf]⟩
+          · exact ⟨fld, by simp [hf'], hxf⟩
+
+theorem mem_joinWith_sep (d : Char) (c c' : List Char) (cs : List (List Char)) :
+    d ∈ joinWith d (c :: c' :: cs) := by
+  simp [joinWith]
+
+
+section text
+variable {β : Type}
+
+theorem line_own_sep (tok : List Char → Option β) (d : Char) (row : List (List Char × β))
+    (hne : row ≠ []) (hval : ∀ cell ∈ row, tok cell.1 = some cell.2)
+    (hns : ∀ cell ∈ row, ∀ x ∈ cell.1, x ≠ d) :
+    allSome ((splitOn d (joinWith d (row.map (·.1)))).map tok) = some (row.map (·.2)) := by
+  rw [splitOn_join d _ (by simpa using hne)
+    (by intro cell hc; obtain ⟨c0, h0, rfl⟩ := List.mem_map.mp hc; exact hns c0 h0)]
+  rw [List.map_map]
+  exact allSome_map_some row _ _ (fun c hc => hval c hc)
+
+theorem line_other_sep_many (tok : List Char → Option β)
+    (htok : ∀ t, (∃ c ∈ t, c ∈ separators) → tok t = none)
+    (s d : Char) (hsd : d ≠ s) (hd : d ∈ separators) (c c' : List Char) (cs : List (List Char)) :
+    allSome ((splitOn s (joinWith d (c :: c' :: cs))).map tok) = none := by
+  obtain ⟨fld, hf, hdf⟩ := mem_splitOn_of_mem s _ d (mem_joinWith_sep d c c' cs) hsd
+  apply allSome_none_of_mem
+  have : tok fld = none := htok fld ⟨d, hdf, hd⟩
+  exact List.mem_map.mpr ⟨fld, hf, this⟩
+
+theorem parseWith_some (tok : List Char → Option β) (s d : Char) (n : Nat)
+    (table : List (List (List Char × β))) (hrect : ∀ row ∈ table, row.length = n)
+    (hline : ∀ row ∈ table,
+      allSome ((splitOn s (joinWith d (row.map (·.1)))).map tok) = some (row.map (·.2))) :
+    parseWith tok s (table.map (fun row => joinWith d (row.map (·.1))))
+      = some (table.map (fun row => row.map (·.2))) := by
+  unfold parseWith
+  rw [List.map_map]
+  rw [allSome_map_some table _ (fun row => row.map (·.2)) (fun row hr => by simpa using hline row hr)]
+  simp only
+  cases table with
+  | nil => rfl
+  | cons r rs =>
+    simp only [List.map_cons]
+    simp
+    intro x hx
+    rw [hrect x (by simp [hx]), hrect r (by simp)]
+
+theorem parseWith_none (tok : List Char → Option β) (s d : Char)
+    (table : List (List (List Char × β))) (row : List (List Char × β)) (hrow : row ∈ table)
+    (hline : allSome ((splitOn s (joinWith d (row.map (·.1)))).map tok) = none) :
+    parseWith tok s (table.map (fun row => joinWith d (row.map (·.1)))) = none := by
+  unfold parseWith
+  rw [List.map_map]
+  rw [allSome_none_of_mem _ (List.mem_map.mpr ⟨row, hrow, by simpa using hline⟩)]
+
+theorem detect_of (tok : List Char → Option β) (lines : List (List Char)) (exp : List (List β))
+    (d : Char) (hd : parseWith tok d lines = some exp) (ss : List Char) (hmem : d ∈ ss)
+    (hall : ∀ s ∈ ss, parseWith tok s lines = none ∨ parseWith tok s lines = some exp) :
+    detectAndParse tok lines ss = some exp := by
+  induction ss with
+  | nil => simp at hmem
+  | cons s ss ih =>
+    unfold detectAndParse
+    rcases hall s (by simp) with h | h
+    · rw [h]
+      rcases List.mem_cons.mp hmem with rfl | hm
+      · rw [hd] at h; cases h
+      · exact ih hm (fun s' hs' => hall s' (by simp [hs']))
+    · rw [h]
+
+/-- **Text images read back with the same shape and values, whichever of the five separators
+wrote them.**  A table with `n ≥ 1` columns whose cells are rendered as tokens that the number
+parser accepts, joined with any separator `d` of the five, is recovered exactly by the
+try-each-separator loop — provided the number parser rejects text that contains one of the five
+separator characters (true of `float`/`np.loadtxt` fields for `,` `|` `;` and inner blanks). -/
+theorem text_roundtrip (tok : List Char → Option β)
+    (htok : ∀ t, (∃ c ∈ t, c ∈ separators) → tok t = none)
+    (d : Char) (hd : d ∈ separators)
+    (table : List (List (List Char × β))) (n : Nat) (hn : 0 < n)
+    (hrect : ∀ row ∈ table, row.length = n)
+    (hval : ∀ row ∈ table, ∀ cell ∈ row, tok cell.1 = some cell.2) :
+    detectAndParse tok (table.map (fun row => joinWith d (row.map (·.1)))) separators
+      = some (table.map (fun row => row.map (·.2))) := by
+  -- accepted tokens contain no separator character
+  have hclean : ∀ row ∈ table, ∀ cell ∈ row, ∀ x ∈ cell.1, x ∉ separators := by
+    intro row hr cell hc x hx hsep
+    have := htok cell.1 ⟨x, hx, hsep⟩
+    rw [hval row hr cell hc] at this
+    cases this
+  have hown : parseWith tok d (table.map (fun row => joinWith d (row.map (·.1))))
+      = some (table.map (fun row => row.map (·.2))) := by
+    apply parseWith_some tok d d n table hrect
+    intro row hr
+    apply line_own_sep tok d row
+    · intro e; have := hrect row hr; rw [e] at this; simp at this; omega
+    · exact hval row hr
+    · intro cell hc x hx e; exact hclean row hr cell hc x hx (e ▸ hd)
+  apply detect_of tok _ _ d hown separators hd
+  intro s hs
+  by_cases hsd : s = d
+  · right; rw [hsd]; exact hown
+  · by_cases h1 : n = 1
+    · right
+      apply parseWith_some tok s d n table hrect
+      intro row hr
+      have hlen := hrect row hr
+      rw [h1] at hlen
+      match row, hlen, hr with
+      | [cell], _, hr =>
+        simp only [List.map_cons, List.map_nil, joinWith]
+        rw [splitOn_no_sep s cell.1
+          (by intro x hx e; exact hclean _ hr cell (by simp) x hx (e ▸ hs))]
+        simp [allSome, hval _ hr cell (by simp)]
+    · cases table with
+      | nil => right; rfl
+      | cons row rest =>
+        left
+        apply parseWith_none tok s d _ row (by simp)
+        have hlen := hrect row (by simp)
+        match row, hlen with
+        | c :: c' :: cs, _ =>
+          simp only [List.map_cons]
+          exact line_other_sep_many tok htok s d (fun e => hsd e.symm) hd _ _ _
+        | [_], hlen => simp at hlen; omega
+        | [], hlen => simp at hlen; omega
+
+
+/-- the driver's token parser satisfies the hypothesis of `text_roundtrip` -/
+theorem numericTok_rejects_separators (t : List Char) (h : ∃ c ∈ t, c ∈ separators) :
+    numericTok t = none := by
+  obtain ⟨c, hc, hsep⟩ := h
+  unfold numericTok
+  split
+  · rfl
+  · split
+    · next hall =>
+      have := List.all_eq_true.mp hall c hc
+      simp only [separators, List.mem_cons, List.not_mem_nil, or_false] at hsep
+      rcases hsep with rfl | rfl | rfl | rfl | rfl <;> simp at this
+    · rfl
+
+end text
+
+-- non-vacuity: a 2 × 2 table written with '|' is recovered (and the hypotheses are satisfiable)
+example : detectAndParse numericTok
+    ([[("1.5".toList, "1.5"), ("-2e3".toList, "-2e3")], [("3".toList, "3"), ("4".toList, "4")]].map
+      (fun row => joinWith '|' (row.map (·.1)))) separators
+    = some [["1.5", "-2e3"], ["3", "4"]] := by
+  apply text_roundtrip numericTok numericTok_rejects_separators '|' (by decide) _ 2 (by decide)
+  · intro row hr; simp at hr; rcases hr with rfl | rfl <;> rfl
+  · intro row hr cell hc
+    simp at hr
+    rcases hr with rfl | rfl <;> simp at hc <;> rcases hc with rfl | rfl <;> decide
+
+/-! ### tables regenerated from today's source -/
+
+/-- the separators tried by `load_image`, in the code's order, are the model's -/
+theorem separators_as_in_code :
+    PyxelModel.Generated.C20.imageSeparators = separators ∧
+    PyxelModel.Generated.C20.tableSeparators = separators := by decide
+
+/-- `class Alignment` has exactly the five keywords of the model -/
+theorem alignments_as_in_code :
+    PyxelModel.Generated.C20.alignments = Align.all.map Align.name := by decide
 
 end PyxelModel.C20
